@@ -652,10 +652,14 @@ def cases(draw):
     if law in ('compare', 'naive-twin'):
         same = draw(st.integers(0, 2)) == 0
         if same and law == 'compare':
-            # the same instant spelled at another offset
+            # the same instant spelled at another offset - or an instant a
+            # microsecond or two away from it (far from 1970 neighbouring
+            # microseconds share one float)
             o2 = draw(offsets)
             m = mk_dt(c['d'], 'tzoffset').astimezone(
                 dtm.timezone(dtm.timedelta(minutes=o2)))
+            m = m + dtm.timedelta(microseconds=draw(st.sampled_from(
+                [0, 0, 1, -1, 2, -3])))
             c['d2'] = [m.year, m.month, m.day, m.hour, m.minute, m.second,
                        m.microsecond, o2]
         else:
@@ -669,6 +673,19 @@ def cases(draw):
                                m.second, m.microsecond, 0]
                 else:
                     c['d2'][7] = 0
+    if law == 'compare' and c['spelling'] == 'expr' and \
+            draw(st.integers(0, 5)) == 0:
+        # the first and the last day of the range, at offsets that put
+        # their UTC reading outside it
+        edge = [[1, 1, 1, draw(st.integers(0, 2)), 30, 0, 0,
+                 draw(st.sampled_from([180, 600, 1439]))],
+                [9999, 12, 31, 23, draw(st.integers(0, 59)), 59, 5,
+                 draw(st.sampled_from([-180, -600, -1439]))],
+                [1, 1, 1, 0, 0, 0, 0, 0], [9999, 12, 31, 23, 59, 59, 999999,
+                                           0]]
+        c['d'] = draw(st.sampled_from(edge))
+        if draw(st.booleans()):
+            c['d2'] = draw(st.sampled_from(edge))
     if law == 'naive-twin':
         c['probe'] = draw(st.integers(0, len(NAIVE_PROBES) - 1))
         c['tzkind'] = 'naive'
